@@ -31,6 +31,7 @@ def stepLine (s : DrvSt) (toks : List String) : DrvSt × String :=
   | "run" :: _ => (s, "ok")
   | "hammer" :: _ => (s, "ok")
   | "lockrace" :: _ => (s, "ok")
+  | "config" :: _ => (s, "ok")
   | "debounce" :: _ => ({ s with dcalls := 0, dlast := 0, dok := true }, "ok")
   | ["dcall"] => ({ s with dcalls := s.dcalls + 1 }, "ok")
   | ["x", k] =>
